@@ -282,36 +282,39 @@ for tag, bits, one, ut in (('f32', 'll2c_f32_bits', '1.0f', 'u32'), ('f64', 'll2
     def neg_bits(x):
         return '(%s(%s) ^ %s)' % (bits, x, SIGN)
 
+    # Parameter order of the *_bits shims: the operands of the dot product first (N, I / Nref, I).  clang orders the operands
+    # of a commutative fmul by parameter rank, so the product n*i of the clause and of the extracted code is the same SAT
+    # sub-circuit (float multiplication is commutative, but SAT cannot see that through two multipliers).
     # scalar overloads
-    d.shim('glm_refract_bits_s_' + tag, T, [(T, 'i'), (T, 'n'), (T, 'eta')], 'return glm::refract(i, n, eta);')
+    d.shim('glm_refract_bits_s_' + tag, T, [(T, 'n'), (T, 'i'), (T, 'eta')], 'return glm::refract(i, n, eta);')
     K = '(%s - eta * eta * (%s - (n * i) * (n * i)))' % (one, one)
     F('glm_refract_bits_s_' + tag, 'glm::refract(genType)  total internal reflection  ' + GEO,
       ensures=[('exact_zero_when_float_k_negative', '!(%s < %s) || %s(RESULT) == 0' % (K, zero, bits)),
                ('compares_equal_to_zero_when_float_k_negative', '!(%s < %s) || RESULT == %s' % (K, zero, zero))])
-    d.shim('glm_faceforward_bits_s_' + tag, T, [(T, 'n'), (T, 'i'), (T, 'nref')], 'return glm::faceforward(n, i, nref);')
+    d.shim('glm_faceforward_bits_s_' + tag, T, [(T, 'nref'), (T, 'i'), (T, 'n')], 'return glm::faceforward(n, i, nref);')
     F('glm_faceforward_bits_s_' + tag, 'glm::faceforward(genType)  sign test  ' + GEO,
       ensures=[('n_bitwise_when_float_dot_negative', '!(nref * i < %s) || %s(RESULT) == %s(n)' % (zero, bits, bits)),
                ('minus_n_bitwise_otherwise', '(nref * i < %s) || (n != n ? RESULT != RESULT : %s(RESULT) == %s)' % (zero, bits, neg_bits('n')))])
     for L in (2, 3, 4):
-        a, b, c = vec_ins(L, tag, 'a'), vec_ins(L, tag, 'b'), vec_ins(L, tag, 'c')
+        vn, vi, vr = vec_ins(L, tag, 'n'), vec_ins(L, tag, 'i'), vec_ins(L, tag, 'r')
         sfx = 'v%d_%s' % (L, tag)
-        mka, mkb, mkc = vec_make(L, tag, 'a'), vec_make(L, tag, 'b'), vec_make(L, tag, 'c')
+        mkn, mki, mkr = vec_make(L, tag, 'n'), vec_make(L, tag, 'i'), vec_make(L, tag, 'r')
         DOTFN = 'glm_dot_' + sfx
-        # refract(I = a, N = b, eta): the float k of the GLSL text, with dot(N, I) being the extracted glm::dot itself
-        d.shim('glm_refract_bits_' + sfx, 'void', a + b + [(T, 'eta')], 'auto r = glm::refract(%s, %s, eta); %s' % (mka, mkb, vec_store(L, 'r')),
+        # refract(I, N, eta): the float k of the GLSL text, with dot(N, I) being the extracted glm::dot itself
+        d.shim('glm_refract_bits_' + sfx, 'void', vn + vi + [(T, 'eta')], 'auto r = glm::refract(%s, %s, eta); %s' % (mki, mkn, vec_store(L, 'r')),
                outs=[(T, 'out', L)])
-        DT = '%s(%s)' % (DOTFN, ', '.join(names(b) + names(a)))
+        DT = '%s(%s)' % (DOTFN, ', '.join(names(vn) + names(vi)))
         K = '(%s - eta * eta * (%s - %s * %s))' % (one, one, DT, DT)
         F('glm_refract_bits_' + sfx, 'glm::refract(vec%d)  total internal reflection  compute_refract  %s' % (L, GEO), uses=[DOTFN],
           ensures=[('exact_zero_vector_when_float_k_negative', '!(%s < %s) || (%s)' % (K, zero, ' && '.join('%s(out[%d]) == 0' % (bits, i) for i in range(L))))])
-        # faceforward(N = a, I = b, Nref = c)
-        d.shim('glm_faceforward_bits_' + sfx, 'void', a + b + c, 'auto r = glm::faceforward(%s, %s, %s); %s' % (mka, mkb, mkc, vec_store(L, 'r')),
+        # faceforward(N, I, Nref); r = Nref
+        d.shim('glm_faceforward_bits_' + sfx, 'void', vr + vi + vn, 'auto r = glm::faceforward(%s, %s, %s); %s' % (mkn, mki, mkr, vec_store(L, 'r')),
                outs=[(T, 'out', L)])
-        DT = '%s(%s)' % (DOTFN, ', '.join(names(c) + names(b)))
+        DT = '%s(%s)' % (DOTFN, ', '.join(names(vr) + names(vi)))
         F('glm_faceforward_bits_' + sfx, 'glm::faceforward(vec%d)  sign test  compute_faceforward  %s' % (L, GEO), uses=[DOTFN],
-          ensures=[('n_bitwise_when_float_dot_negative', '!(%s < %s) || (%s)' % (DT, zero, ' && '.join('%s(out[%d]) == %s(%s)' % (bits, i, bits, n) for i, n in enumerate(names(a))))),
+          ensures=[('n_bitwise_when_float_dot_negative', '!(%s < %s) || (%s)' % (DT, zero, ' && '.join('%s(out[%d]) == %s(%s)' % (bits, i, bits, n) for i, n in enumerate(names(vn))))),
                    ('minus_n_bitwise_otherwise', '(%s < %s) || (%s)' % (DT, zero, ' && '.join(
-                       '(%s != %s ? out[%d] != out[%d] : %s(out[%d]) == %s)' % (n, n, i, i, bits, i, neg_bits(n)) for i, n in enumerate(names(a)))))])
+                       '(%s != %s ? out[%d] != out[%d] : %s(out[%d]) == %s)' % (n, n, i, i, bits, i, neg_bits(n)) for i, n in enumerate(names(vn)))))])
 
 flat = P.build(d, 'flat', defines=['GLM_ENABLE_EXPERIMENTAL'])
 for fn, real, kw in rcontracts:
@@ -325,7 +328,7 @@ for fn, real, kw in fcontracts:
         continue
     kw.setdefault('timeout', 300)
     kw.setdefault('unwind', 2)
-    kw.setdefault('backends', ('sat',))
+    kw.setdefault('backends', ('z3', 'sat'))
     kw.setdefault('tier', 'thorough' if fn in THOROUGH else 'quick')
     P.contract(fn, real, kind='F', **kw)
 
